@@ -651,6 +651,10 @@ func (vc *VC) specCall(env *SpecEnv, e *SCall) Val {
 				return Val{app(SBool, "str.contains", args[0], args[1]), tb}
 			case "strings.ToLower":
 				return Val{vc.uf("str_lower", SStr, args[0]), types.Typ[types.String]}
+			case "strconv.FormatUint", "strconv.FormatInt":
+				return Val{vc.uf("fmtint", SStr, args[0], args[1]), types.Typ[types.String]}
+			case "strconv.Itoa":
+				return Val{vc.uf("itoa", SStr, args[0]), types.Typ[types.String]}
 			case "errors.Is":
 				return Val{Term{fmt.Sprintf("(errIs %s %s)", args[0].S, args[1].S), SBool}, tb}
 			}
